@@ -126,7 +126,7 @@ type dst struct {
 type dkind struct {
 	name string
 	sup  int
-	mk   func(ch *choice.Chooser) dst
+	mk   func(ch *choice.Chooser, ev int) dst
 }
 
 func anyBytes(a any) []byte {
@@ -140,10 +140,10 @@ func anyBytes(a any) []byte {
 }
 
 func unsup(name string, mk func() any) dkind {
-	return dkind{name, unsupported, func(*choice.Chooser) dst { return dst{data: mk()} }}
+	return dkind{name, unsupported, func(*choice.Chooser, int) dst { return dst{data: mk()} }}
 }
 func tnil(name string, v any) dkind {
-	return dkind{name, nilTyped, func(*choice.Chooser) dst { return dst{data: v} }}
+	return dkind{name, nilTyped, func(*choice.Chooser, int) dst { return dst{data: v} }}
 }
 
 var oldString = "old-old-old"
@@ -169,43 +169,43 @@ func nstrDest(prepop bool) dst {
 }
 
 var bsConsumeKinds = []dkind{
-	{"io.ReaderFrom", supIface, func(*choice.Chooser) dst {
+	{"io.ReaderFrom", supIface, func(*choice.Chooser, int) dst {
 		d := &rfDest{}
 		return dst{data: d, get: func() []byte { return d.buf.Bytes() }}
 	}},
-	{"io.Writer", supIface, func(ch *choice.Chooser) dst {
-		w := &swriter{Name: "dst", C: ch, Errs: 2}
+	{"io.Writer", supIface, func(ch *choice.Chooser, ev int) dst {
+		w := &swriter{Name: "dst", C: ch, Errs: 2, ErrVals: ev}
 		return dst{data: plainW{w}, get: func() []byte { return w.Buf }, w: w}
 	}},
-	{"*bytes.Buffer", supIface, func(*choice.Chooser) dst {
+	{"*bytes.Buffer", supIface, func(*choice.Chooser, int) dst {
 		b := new(bytes.Buffer)
 		return dst{data: b, get: func() []byte { return b.Bytes() }}
 	}},
-	{"*bytes.Buffer/prepop", supIface, func(*choice.Chooser) dst {
+	{"*bytes.Buffer/prepop", supIface, func(*choice.Chooser, int) dst {
 		b := bytes.NewBufferString("old")
 		// a writer-like destination is appended to: what is judged is what was handed over after the old content
 		return dst{data: b, get: func() []byte { return bytes.TrimPrefix(b.Bytes(), []byte("old")) }}
 	}},
-	{"encoding.BinaryUnmarshaler", supIface, func(*choice.Chooser) dst {
+	{"encoding.BinaryUnmarshaler", supIface, func(*choice.Chooser, int) dst {
 		d := &buDest{}
 		return dst{data: d, get: func() []byte { return d.got }}
 	}},
-	{"*string", supConcrete, func(*choice.Chooser) dst { return strDest(false) }},
-	{"*string/prepop", supConcrete, func(*choice.Chooser) dst { return strDest(true) }},
-	{"*[]byte", supConcrete, func(*choice.Chooser) dst {
+	{"*string", supConcrete, func(*choice.Chooser, int) dst { return strDest(false) }},
+	{"*string/prepop", supConcrete, func(*choice.Chooser, int) dst { return strDest(true) }},
+	{"*[]byte", supConcrete, func(*choice.Chooser, int) dst {
 		b := new([]byte)
 		return dst{data: b, get: func() []byte { return *b }}
 	}},
-	{"*[]byte/prepop", supConcrete, func(*choice.Chooser) dst {
+	{"*[]byte/prepop", supConcrete, func(*choice.Chooser, int) dst {
 		b := []byte(oldBytes)
 		return dst{data: &b, get: func() []byte { return b }, old: []byte(oldBytes)}
 	}},
-	{"*namedString", supConcrete, func(*choice.Chooser) dst { return nstrDest(false) }},
-	{"*namedBytes", supConcrete, func(*choice.Chooser) dst {
+	{"*namedString", supConcrete, func(*choice.Chooser, int) dst { return nstrDest(false) }},
+	{"*namedBytes", supConcrete, func(*choice.Chooser, int) dst {
 		b := new(namedBytes)
 		return dst{data: b, get: func() []byte { return []byte(*b) }}
 	}},
-	{"*[]namedU8", supConcrete, func(*choice.Chooser) dst {
+	{"*[]namedU8", supConcrete, func(*choice.Chooser, int) dst {
 		b := new([]namedU8)
 		return dst{data: b, get: func() []byte {
 			out := make([]byte, len(*b))
@@ -215,15 +215,15 @@ var bsConsumeKinds = []dkind{
 			return out
 		}}
 	}},
-	{"*any(string)", supConcrete, func(*choice.Chooser) dst {
+	{"*any(string)", supConcrete, func(*choice.Chooser, int) dst {
 		var a any = "old"
 		return dst{data: &a, get: func() []byte { return anyBytes(a) }, old: []byte("old")}
 	}},
-	{"*any([]byte)", supConcrete, func(*choice.Chooser) dst {
+	{"*any([]byte)", supConcrete, func(*choice.Chooser, int) dst {
 		var a any = []byte("old")
 		return dst{data: &a, get: func() []byte { return anyBytes(a) }, old: []byte("old")}
 	}},
-	{"*any(empty string)", supConcrete, func(*choice.Chooser) dst {
+	{"*any(empty string)", supConcrete, func(*choice.Chooser, int) dst {
 		var a any = ""
 		return dst{data: &a, get: func() []byte { return anyBytes(a) }}
 	}},
@@ -242,7 +242,7 @@ var bsConsumeKinds = []dkind{
 	unsup("int", func() any { return 3 }),
 	unsup("struct{}", func() any { return struct{}{} }),
 	unsup("map[string]string", func() any { return map[string]string{} }),
-	{"nil", nilUntyped, func(*choice.Chooser) dst { return dst{data: nil} }},
+	{"nil", nilUntyped, func(*choice.Chooser, int) dst { return dst{data: nil} }},
 	tnil("(*string)(nil)", (*string)(nil)),
 	tnil("(*[]byte)(nil)", (*[]byte)(nil)),
 	tnil("(*any)(nil)", (*any)(nil)),
@@ -253,14 +253,14 @@ var bsConsumeKinds = []dkind{
 }
 
 var textConsumeKinds = []dkind{
-	{"encoding.TextUnmarshaler", supIface, func(*choice.Chooser) dst {
+	{"encoding.TextUnmarshaler", supIface, func(*choice.Chooser, int) dst {
 		d := &tuDest{}
 		return dst{data: d, get: func() []byte { return d.got }}
 	}},
-	{"*string", supConcrete, func(*choice.Chooser) dst { return strDest(false) }},
-	{"*string/prepop", supConcrete, func(*choice.Chooser) dst { return strDest(true) }},
-	{"*namedString", supConcrete, func(*choice.Chooser) dst { return nstrDest(false) }},
-	{"*namedString/prepop", supConcrete, func(*choice.Chooser) dst { return nstrDest(true) }},
+	{"*string", supConcrete, func(*choice.Chooser, int) dst { return strDest(false) }},
+	{"*string/prepop", supConcrete, func(*choice.Chooser, int) dst { return strDest(true) }},
+	{"*namedString", supConcrete, func(*choice.Chooser, int) dst { return nstrDest(false) }},
+	{"*namedString/prepop", supConcrete, func(*choice.Chooser, int) dst { return nstrDest(true) }},
 	unsup("*[]byte", func() any { return new([]byte) }),
 	unsup("*any(string)", func() any { var a any = "old"; return &a }),
 	unsup("*int", func() any { return new(int) }),
@@ -270,7 +270,7 @@ var textConsumeKinds = []dkind{
 	unsup("[]byte", func() any { return []byte("x") }),
 	unsup("int", func() any { return 3 }),
 	unsup("map[string]string", func() any { return map[string]string{} }),
-	{"nil", nilUntyped, func(*choice.Chooser) dst { return dst{data: nil} }},
+	{"nil", nilUntyped, func(*choice.Chooser, int) dst { return dst{data: nil} }},
 	tnil("(*string)(nil)", (*string)(nil)),
 	tnil("(*namedString)(nil)", (*namedString)(nil)),
 	tnil("(*int)(nil)", (*int)(nil)),
@@ -289,21 +289,21 @@ type src struct {
 type skind struct {
 	name string
 	sup  int
-	mk   func(ch *choice.Chooser, content []byte, zero int) src
+	mk   func(ch *choice.Chooser, content []byte, zero, ev int) src
 }
 
 func cp(b []byte) []byte { return append([]byte{}, b...) }
 
 func exact(name string, mk func(b []byte) any) skind {
-	return skind{name, supConcrete, func(_ *choice.Chooser, content []byte, _ int) src {
+	return skind{name, supConcrete, func(_ *choice.Chooser, content []byte, _, _ int) src {
 		return src{data: mk(cp(content)), expect: content}
 	}}
 }
 func usrc(name string, sup int, v func() any) skind {
-	return skind{name, sup, func(*choice.Chooser, []byte, int) src { return src{data: v()} }}
+	return skind{name, sup, func(*choice.Chooser, []byte, int, int) src { return src{data: v()} }}
 }
 func jsrc(name string, mk func(tag string) (val any)) skind {
-	return skind{name, supJSON, func(_ *choice.Chooser, content []byte, _ int) src {
+	return skind{name, supJSON, func(_ *choice.Chooser, content []byte, _, _ int) src {
 		v := mk(fmt.Sprintf("%x", content))
 		return src{data: v, jsonOf: v}
 	}}
@@ -329,34 +329,34 @@ var commonSrcTail = []skind{
 }
 
 var bsProduceKinds = append([]skind{
-	{"io.WriterTo", supIface, func(_ *choice.Chooser, content []byte, _ int) src {
+	{"io.WriterTo", supIface, func(_ *choice.Chooser, content []byte, _, _ int) src {
 		return src{data: &wtSrc{cp(content)}, expect: content}
 	}},
-	{"io.WriterTo+ReadCloser", supIface, func(_ *choice.Chooser, content []byte, _ int) src {
+	{"io.WriterTo+ReadCloser", supIface, func(_ *choice.Chooser, content []byte, _, _ int) src {
 		s := &wtrcSrc{wtSrc: wtSrc{cp(content)}}
 		return src{data: s, expect: content, closes: func() int { return s.closes }}
 	}},
-	{"io.ReadCloser", supIface, func(ch *choice.Chooser, content []byte, zero int) src {
-		rd := &sreader{Name: "payload", Data: content, C: ch, Errs: 2, Zero: zero, CloseFaults: true}
+	{"io.ReadCloser", supIface, func(ch *choice.Chooser, content []byte, zero, ev int) src {
+		rd := &sreader{Name: "payload", Data: content, C: ch, Errs: 2, ErrVals: ev, Zero: zero, CloseFaults: true}
 		return src{data: rd, expect: content, payload: rd, closes: func() int { return rd.Closes }}
 	}},
-	{"io.Reader", supIface, func(ch *choice.Chooser, content []byte, zero int) src {
-		rd := &sreader{Name: "payload", Data: content, C: ch, Errs: 2, Zero: zero}
+	{"io.Reader", supIface, func(ch *choice.Chooser, content []byte, zero, ev int) src {
+		rd := &sreader{Name: "payload", Data: content, C: ch, Errs: 2, ErrVals: ev, Zero: zero}
 		return src{data: plainR{rd}, expect: content, payload: rd}
 	}},
-	{"encoding.BinaryMarshaler", supIface, func(_ *choice.Chooser, content []byte, _ int) src {
+	{"encoding.BinaryMarshaler", supIface, func(_ *choice.Chooser, content []byte, _, _ int) src {
 		return src{data: bmSrc{cp(content)}, expect: content}
 	}},
 	exact("error", func(b []byte) any { return errSrc{string(b)} }),
-	{"[]byte", supConcrete, func(_ *choice.Chooser, content []byte, _ int) src {
+	{"[]byte", supConcrete, func(_ *choice.Chooser, content []byte, _, _ int) src {
 		b := cp(content)
 		return src{data: b, expect: content, intact: func() bool { return bytes.Equal(b, content) }}
 	}},
-	{"*[]byte", supConcrete, func(_ *choice.Chooser, content []byte, _ int) src {
+	{"*[]byte", supConcrete, func(_ *choice.Chooser, content []byte, _, _ int) src {
 		b := cp(content)
 		return src{data: &b, expect: content, intact: func() bool { return bytes.Equal(b, content) }}
 	}},
-	{"namedBytes", supConcrete, func(_ *choice.Chooser, content []byte, _ int) src {
+	{"namedBytes", supConcrete, func(_ *choice.Chooser, content []byte, _, _ int) src {
 		b := namedBytes(cp(content))
 		return src{data: b, expect: content, intact: func() bool { return bytes.Equal(b, content) }}
 	}},
@@ -367,10 +367,10 @@ var bsProduceKinds = append([]skind{
 }, commonSrcTail...)
 
 var textProduceKinds = append([]skind{
-	{"encoding.TextMarshaler", supIface, func(_ *choice.Chooser, content []byte, _ int) src {
+	{"encoding.TextMarshaler", supIface, func(_ *choice.Chooser, content []byte, _, _ int) src {
 		return src{data: tmSrc{cp(content)}, expect: content}
 	}},
-	{"*encoding.TextMarshaler", supIface, func(_ *choice.Chooser, content []byte, _ int) src {
+	{"*encoding.TextMarshaler", supIface, func(_ *choice.Chooser, content []byte, _, _ int) src {
 		return src{data: &tmSrc{cp(content)}, expect: content}
 	}},
 	exact("error", func(b []byte) any { return errSrc{string(b)} }),
@@ -452,7 +452,7 @@ func runConsume(cs Case, content []byte, ch *choice.Chooser) verdict {
 	if k == nil {
 		return verdict{class: "harness", what: "unknown destination kind " + cs.Kind}
 	}
-	rd := &sreader{Name: "src", Data: content, C: ch, Errs: cs.Errs, Zero: cs.Zero, CloseFaults: true}
+	rd := &sreader{Name: "src", Data: content, C: ch, Errs: cs.Errs, ErrVals: cs.ErrValues, Zero: cs.Zero, CloseFaults: true}
 	var reader io.Reader
 	switch cs.Stream {
 	case "closer":
@@ -464,7 +464,7 @@ func runConsume(cs Case, content []byte, ch *choice.Chooser) verdict {
 	default:
 		return verdict{class: "harness", what: "unknown stream kind " + cs.Stream}
 	}
-	d := k.mk(ch)
+	d := k.mk(ch, cs.ErrValues)
 	err, pan := call(func() error { return cons.Consume(reader, d.data) })
 	v := verdict{nontrivial: rd.Reads > 0 || pan != ""}
 	tag := cs.Codec + "-consume:"
@@ -548,7 +548,7 @@ func runConsume(cs Case, content []byte, ch *choice.Chooser) verdict {
 			for i, b := range content {
 				other[i] = ^b
 			}
-			d2 := k.mk(nil)
+			d2 := k.mk(nil, 1)
 			err2, pan2 := call(func() error { return cons.Consume(bytes.NewReader(other), d2.data) })
 			if pan2 != "" {
 				v.class, v.what = "panic", fmt.Sprintf("second Consume into %s panicked: %s", k.name, pan2)
@@ -599,7 +599,7 @@ func runProduce(cs Case, content []byte, ch *choice.Chooser) verdict {
 	if k == nil {
 		return verdict{class: "harness", what: "unknown source kind " + cs.Kind}
 	}
-	w := &swriter{Name: "dst", C: ch, Errs: cs.Errs, CloseFaults: true}
+	w := &swriter{Name: "dst", C: ch, Errs: cs.Errs, ErrVals: cs.ErrValues, CloseFaults: true}
 	var writer io.Writer
 	switch cs.Stream {
 	case "closer":
@@ -611,7 +611,7 @@ func runProduce(cs Case, content []byte, ch *choice.Chooser) verdict {
 	default:
 		return verdict{class: "harness", what: "unknown stream kind " + cs.Stream}
 	}
-	s := k.mk(ch, content, cs.Zero)
+	s := k.mk(ch, content, cs.Zero, cs.ErrValues)
 	err, pan := call(func() error { return prod.Produce(writer, s.data) })
 	v := verdict{nontrivial: w.Writes > 0 || pan != "" || (s.payload != nil && s.payload.Reads > 0)}
 	tag := cs.Codec + "-produce:"
@@ -713,7 +713,7 @@ func runProduce(cs Case, content []byte, ch *choice.Chooser) verdict {
 			for i, b := range content {
 				other[i] = ^b
 			}
-			s2 := k.mk(nil, other, 0)
+			s2 := k.mk(nil, other, 0, 1)
 			var out2 bytes.Buffer
 			err2, pan2 := call(func() error { return prod.Produce(&out2, s2.data) })
 			if pan2 != "" || err2 != nil || !bytes.Equal(out2.Bytes(), other) {
